@@ -1,5 +1,107 @@
 import Drivers.Common
-/-! Stub: replaced by the driver of the `Scope` model. -/
+import PsiModel.Scope
+/-!
+Driver of the `Scope` model (C19).  The harness streams a scope table through the line protocol
+(the same data it writes to `PsiGen/Names.lean`) and asks the *Lean* `resolve`/`failures` for the
+classification of every load; the harness compares that with CPython's `symtable`.
+
+    builtins <nats>
+    modobj <attrs> <submods a:m,…>
+    module
+    scope <kind> <parent> <bound> <globals> <nonlocals> <cells> <imports n:m,…>
+    loads <name:line,…>            (of the last scope)
+    chain <base> <line> <path>     (appended to the last scope)
+    fromimport <modobj> <attr> <line>
+    resolve <module> <scope> <name>   → local | free:<j> | cell:<j> | global | builtin | none
+    check                             → true | false
+    failures                          → L:m:s:name:line … C:m:s:base:line … F:m:mo:attr:line | -
+-/
 namespace Psi.Driver.Scope
-def main : IO Unit := pure ()
+open Psi.Scope
+
+def parseKind? : String → Option Kind
+  | "module" => some .module
+  | "function" => some .function
+  | "lambda" => some .lambda
+  | "comprehension" => some .comprehension
+  | "class" => some .class
+  | _ => none
+
+def natPairs? (s : String) : Option (List (Nat × Nat)) :=
+  (commaList s).mapM fun p =>
+    match p.splitOn ":" with
+    | [a, b] => do pure ((← parseNat? a), (← parseNat? b))
+    | _ => none
+
+def modifyLast {α} (f : α → α) : List α → List α
+  | [] => []
+  | [a] => [f a]
+  | a :: as => a :: modifyLast f as
+
+def showBinding : Option Binding → String
+  | none => "none"
+  | some .local => "local"
+  | some (.enclosing j) => s!"free:{j}"
+  | some (.cell j) => s!"cell:{j}"
+  | some .global => "global"
+  | some .builtin => "builtin"
+
+def showFailure : Failure → String
+  | .load a b c d => s!"L:{a}:{b}:{c}:{d}"
+  | .chain a b c d => s!"C:{a}:{b}:{c}:{d}"
+  | .fromImport a b c d => s!"F:{a}:{b}:{c}:{d}"
+
+def init : Package := { builtins := [], modobjs := [], modules := [] }
+
+def step (p : Package) (ws : List String) : Package × String :=
+  let bad := (p, "bad-op")
+  match ws with
+  | ["builtins", l] =>
+    match parseNats? l with
+    | some l => ({ p with builtins := l }, "ok")
+    | none => bad
+  | ["modobj", a, s] =>
+    match parseNats? a, natPairs? s with
+    | some a, some s => ({ p with modobjs := p.modobjs ++ [{ attrs := a, submods := s }] }, "ok")
+    | _, _ => bad
+  | ["module"] => ({ p with modules := p.modules ++ [{ scopes := [], fromImports := [] }] }, "ok")
+  | ["scope", k, par, b, g, nl, c, im] =>
+    match parseKind? k, parseNat? par, parseNats? b, parseNats? g, parseNats? nl, parseNats? c, natPairs? im with
+    | some k, some par, some b, some g, some nl, some c, some im =>
+      let sc : Scope := { kind := k, parent := par, bound := b, globals := g, nonlocals := nl,
+                          cells := c, imports := im, loads := [], chains := [] }
+      ({ p with modules := modifyLast (fun m => { m with scopes := m.scopes ++ [sc] }) p.modules }, "ok")
+    | _, _, _, _, _, _, _ => bad
+  | ["loads", l] =>
+    match natPairs? l with
+    | some l =>
+      let setLoads : Scope → Scope := fun s => { s with loads := l }
+      let upd : Module → Module := fun m => { m with scopes := modifyLast setLoads m.scopes }
+      ({ p with modules := modifyLast upd p.modules }, "ok")
+    | none => bad
+  | ["chain", b, line, path] =>
+    match parseNat? b, parseNat? line, parseNats? path with
+    | some b, some line, some path =>
+      let addChain : Scope → Scope := fun s => { s with chains := s.chains ++ [⟨b, path, line⟩] }
+      let upd : Module → Module := fun m => { m with scopes := modifyLast addChain m.scopes }
+      ({ p with modules := modifyLast upd p.modules }, "ok")
+    | _, _, _ => bad
+  | ["fromimport", mo, a, line] =>
+    match parseNat? mo, parseNat? a, parseNat? line with
+    | some mo, some a, some line =>
+      let upd : Module → Module := fun m => { m with fromImports := m.fromImports ++ [(mo, a, line)] }
+      ({ p with modules := modifyLast upd p.modules }, "ok")
+    | _, _, _ => bad
+  | ["resolve", mi, si, n] =>
+    match parseNat? mi, parseNat? si, parseNat? n with
+    | some mi, some si, some n =>
+      match p.modules[mi]? with
+      | some m => (p, showBinding (resolve p.builtins m.scopes si n))
+      | none => (p, "none")
+    | _, _, _ => bad
+  | ["check"] => (p, toString (check p))
+  | ["failures"] => (p, showList ((failures p).map showFailure))
+  | _ => bad
+
+def main : IO Unit := Psi.Driver.run init step
 end Psi.Driver.Scope
